@@ -551,6 +551,9 @@ def generate(rng, tier):
             vals = sorted(vs)
         for v in vals:
             yield Case(["bf.try_new\t%s\t%d" % (t, v), "bf.try_from\t%s\t%d" % (t, v)], {"k": "new", "t": t, "v": v})
+    # the public constants of the bounded types (ZERO / MAX / value tables / RFC code points): each has to be
+    # the in-range value its name says
+    yield Case(["impl.bf.consts"], {"k": "consts"})
     for n in list(range(0, 300)) + [2**8, 2**8 + 63, 2**16, 2**16 + 1, 2**32, 2**32 + 5, 2**63, 2**64 - 1, 2**64 - 193]:
         yield Case(["bf.sl_from_len\t%d" % n], {"k": "from_len", "n": n})
     for v in range(1 << 16) if thorough else list(range(8192 + 64)) + [2**14, 2**15, 65535, 65528]:
@@ -692,6 +695,23 @@ def is_trivial(c):
 # ------------------------------------------------------------------------------------------------
 # oracle
 
+# widths: IEEE 802.1Q (PCP 3, VID 12), RFC 2474 (DSCP 6), RFC 3168 (ECN 2: Not-ECT 00, ECT(1) 01, ECT(0) 10, CE 11),
+# RFC 791 (fragment offset 13), RFC 8200 (flow label 20), IEEE 802.1AE (AN 2, SL 6), RFC 3376 (QRV 3);
+# DSCP code points: RFC 2474 (CSn = 8n), RFC 2597 (AFxy = 8x + 2y), RFC 3246 (EF 46), RFC 5865 (VOICE-ADMIT 44),
+# RFC 8622 (LE 1)
+CONSTS = {
+    "Qrv::ZERO": 0, "Qrv::MAX": 7, "Qrv::MAX_U8": 7,
+    "VlanPcp::ZERO": 0, "VlanPcp::MAX_U8": 7, "VlanId::ZERO": 0, "VlanId::MAX_U16": 4095,
+    "IpDscp::ZERO": 0, "IpDscp::MAX": 63, "IpDscp::MAX_U8": 63, "IpDscp::EF": 46, "IpDscp::VOICE_ADMIT": 44, "IpDscp::LOWER_EFFORT": 1,
+    "IpEcn::ZERO": 0, "IpEcn::ONE": 1, "IpEcn::TWO": 2, "IpEcn::THREE": 3, "IpEcn::MAX_U8": 3,
+    "IpEcn::NotEct": 0, "IpEcn::Ect1": 1, "IpEcn::Ect0": 2, "IpEcn::CongestionExperienced": 3,
+    "IpFragOffset::ZERO": 0, "IpFragOffset::MAX_U16": 8191, "Ipv6FlowLabel::ZERO": 0, "Ipv6FlowLabel::MAX_U32": (1 << 20) - 1,
+    "MacsecAn::ZERO": 0, "MacsecAn::MAX_U8": 3, "MacsecShortLen::ZERO": 0, "MacsecShortLen::MAX_U8": 63,
+}
+CONSTS.update({"Qrv::VALUES[%d]" % i: i for i in range(8)})
+CONSTS.update({"IpDscp::CS%d" % i: 8 * i for i in range(8)})
+CONSTS.update({"IpDscp::AF%d%d" % (x, y): 8 * x + 2 * y for x in (1, 2, 3, 4) for y in (1, 2, 3)})
+
 
 def _okhex(s):
     """bytes inside ok(<hex>...) or None."""
@@ -715,6 +735,12 @@ def oracle(c):
             for i in (0, 1):
                 if c.impl[i] != want:
                     out.append(("range-accept", {"line": c.lines[i], "got": c.impl[i], "want": want}))
+                    break
+        elif k == "consts":
+            got = dict(x.split("=", 1) for x in (c.impl[0] or "").split(",") if "=" in x)
+            for name, want in sorted(CONSTS.items()):
+                if got.get(name) != str(want):
+                    out.append(("constant-out-of-range-or-misnamed", {"constant": name, "got": got.get(name), "want": want}))
                     break
         elif k == "from_len":
             n = c.meta["n"]
